@@ -65,6 +65,40 @@ def range_item(t):
     return isinstance(t, tuple) and t and t[0] == 'app' and t[1] in ('vproj', 'payload') and t[2][0] == 'call' and t[2][1].endswith('::next')
 
 
+def user_iter_item(v):
+    """v is the item of one `next()` call on a (caller-supplied) iterator: `it.next().expect(..)` / `.unwrap()` / the Some payload"""
+    if isinstance(v, tuple) and v[:1] == ('app',) and v[1] == 'vproj' and len(v) == 5 and v[3] == 'Ok' and user_iter_item(v[2]):
+        return True       # the Ok payload of a Result item (try_fill flavours)
+    return isinstance(v, tuple) and v[:1] == ('app',) and v[1] in ('payload', 'vproj') and isinstance(v[2], tuple) and v[2][:1] == ('call',) and v[2][1].endswith('Iterator::next')
+
+
+def own_value_init(I, r, want_value=None):
+    """the method initialises one value itself: one reservation with the layout of T, one ptr::write of the value at the
+    reserved pointer, that pointer returned.  Returns the value term written, or None."""
+    own = [e for e in r.events if e.is_own()]
+    resv = [e for e in own if e.kind == 'call' and e.callee and 'NonNull<u8>' in ((I.db.by_path.get(e.callee) or {}).get('meta', {}).get('output') or '') and len(e.args) > 1]
+    ws = [e for e in own if e.kind == 'call' and e.callee == 'core::ptr::write']
+    if len(resv) != 1 or len(ws) != 1 or [e for e in own if e.kind in ('copy', 'slice')]:
+        return None
+    lay = resv[0].args[1]
+    if not (lay[0] == 'layout' and 'sizeof(T)' in show(lay) and 'alignof(T)' in show(lay)):
+        return None
+    base = resv[0].ret if not (resv[0].ret[0] == 'phi' and I.variants_in(resv[0].ret) & {'Ok'}) else I.project_variant(None, resv[0].ret, 'Ok', '0')
+    if ws[0].args[0] != base or r.events.index(resv[0]) > r.events.index(ws[0]):
+        return None
+    if r.ret is None:
+        return None
+    if not (r.ret == base or base in subterms(r.ret)):
+        # Result / Option returning methods: every success payload is the reserved pointer
+        rets = [t for t, _ in arena.success_payloads(I, r)]
+        if not rets or not all(base in subterms(t) or t == base for t in rets):
+            return None
+    v = ws[0].args[1]
+    if want_value is not None and v != want_value:
+        return None
+    return v
+
+
 def view_fill(ctx, I, r, b, own, slices, base_ptr, nret, fn, name):
     """the fill written through a slice view of the reserved block: `for (i, slot) in view.iter_mut().enumerate() { *slot = f(i) }`
     (view = from_raw_parts_mut(reserved base, n), typically of MaybeUninit<T>).  Returns True if it recognised (and judged) the form."""
@@ -158,6 +192,13 @@ def run(ctx, config='rel-all'):
                     bound_ok = field_of(e.args[0], 'start') == C(0) and field_of(e.args[0], 'end') == nret
                 if e.kind == 'call' and e.callee and e.callee.endswith('<impl [T]>::iter') and e.args and app('len', e.args[0]) == nret:
                     bound_ok = True
+                # internal iteration: (0..n).for_each(..) / try_for_each(..)
+                if e.kind == 'call' and e.callee and e.callee.split('::')[-1] in ('for_each', 'try_for_each') and e.args:
+                    rg = e.args[0]
+                    if rg[0] == 'addr' and rg[1][0] == 'local':
+                        rg = e.state.env.get((rg[1][1], rg[1][2])) or rg       # try_for_each takes &mut self
+                    if rg[0] == 'agg' and rg[1].endswith('Range'):
+                        bound_ok = field_of(rg, 'start') == C(0) and field_of(rg, 'end') == nret
                 # `for x in slice` (IntoIterator for &[T]): one iteration per element of a slice whose length is the returned length
                 if e.kind == 'call' and e.callee and 'IntoIterator for &' in e.callee and e.callee.endswith('[T]>::into_iter') and e.args and app('len', e.args[0]) == nret:
                     bound_ok = True
@@ -197,6 +238,8 @@ def run(ctx, config='rel-all'):
                         ctx.ok('R2', '%s: slot i receives the i-th cloned element (index and value from the same enumerate item)' % fn, show(idx)[:60])
                     elif v[0] == 'param':
                         ctx.ok('R2', '%s: every slot receives the value the caller passed (a Copy parameter)' % fn, show(v))
+                    elif user_iter_item(v) and len([e for e in own if e.kind == 'call' and (e.callee or '').endswith('Iterator::next') and e.ret is not None and e.ret in subterms(v)]) == 1:
+                        ctx.ok('R2', "%s: slot i receives the next item of the caller's iterator (one next() per slot, in slot order)" % fn, show(v)[:60])
                     elif v[0] == 'call' and v[1].endswith('Clone::clone') and idx in subterms(v) and ('param', 2) in subterms(v):
                         ctx.ok('R2', '%s: slot i receives a clone of src[i] (the write offset is the index used to read the source)' % fn, show(idx)[:60])
                     else:
@@ -249,7 +292,9 @@ def run(ctx, config='rel-all'):
             ctx.ok('R6', 'Bump::%s is an analysed initialiser' % name, 'R1/R2')
             continue
         fw = [e for e in own if e.kind == 'call' and 'Bump::<MIN_ALIGN>::' in (e.callee or '') and e.callee.split('::')[-1] in INV and '{closure' not in e.callee]
-        if raw:
+        if raw and '[' not in out and 'str' not in out and own_value_init(I, r) is not None:
+            ctx.ok('R6', 'Bump::%s initialises one value itself: Layout::new::<T>() reserved, one write at the reserved pointer, that pointer returned' % name, 'own reservation + single ptr::write')
+        elif raw:
             ctx.violation('R6', 'Bump::' + name, 'raw-initialisation', 'Bump::%s performs raw initialisation itself (%s) but is not among the initialisers whose extents and indices are checked; only forwards to %s are expected here' % (name, sorted({e.kind if e.kind != 'call' else e.callee.split('::')[-1] for e in raw}), sorted(CORE)[:4]), raw[0].span)
         elif len(fw) != 1:
             ctx.violation('R6', 'Bump::' + name, 'forward', 'Bump::%s must forward to exactly one arena initialiser; it calls %s' % (name, [e.callee.split('::')[-1] for e in fw]), b.get('span'))
@@ -280,6 +325,16 @@ def run(ctx, config='rel-all'):
             I, r = arena.run_fn(ctx, b['id'], config)
             fw = [e for e in r.events if e.is_own() and e.kind == 'call' and (e.callee or '').endswith('alloc_slice_fill_with')]
             cl = [x for x in db.fn_bodies() if x['kind'] == 'closure' and x['id'].startswith(b['id'] + '::{closure')]
+            if fw and not cl and len(fw[0].args) > 2 and fw[0].args[2][0] == 'fn':
+                # the generator is a named (nested) fn instead of a closure
+                gb = db.by_path.get(fw[0].args[2][1]) or db.bodies.get(fw[0].args[2][1])
+                cl = [gb] if gb is not None else []
+            sib = [e for e in r.events if e.is_own() and e.kind == 'call' and 'Bump::<' in (e.callee or '') and (e.callee or '').split('::')[-1] == 'try_' + name]
+            if not fw and len(sib) == 1 and sib[0].args == [('param', k + 1) for k in range(len(sib[0].args))] and not pre:
+                # the panicking flavour delegates to its try_ twin with the same arguments: the twin's clause decides what the slots get
+                n7 += 1
+                ctx.ok('R7', 'Bump::%s: every slot receives what Bump::try_%s gives it (same arguments, forwarded in order)' % (name, name), 'forward to the fallible twin')
+                continue
             okv = len(fw) == 1 and fw[0].args[0] == P1 and len(cl) >= 1
             if okv and kind != 'iter':
                 okv = fw[0].args[1] == P2_
@@ -289,7 +344,7 @@ def run(ctx, config='rel-all'):
                 # what is left to state here is the value every slot gets
                 ws = [e for e in r.events if e.is_own() and e.kind == 'call' and e.callee == 'core::ptr::write']
                 want_v = {'copy': lambda v: v == P3_, 'clone': lambda v: v[0] == 'call' and v[1].endswith('Clone::clone') and P3_ in subterms(v),
-                          'default': lambda v: v[0] == 'call' and v[1].endswith('Default::default'), 'iter': lambda v: False}[kind]
+                          'default': lambda v: v[0] == 'call' and v[1].endswith('Default::default'), 'iter': user_iter_item}[kind]
                 inlined = len(ws) == 1 and want_v(ws[0].args[1])
             if okv:
                 I2, r2 = arena.run_fn(ctx, cl[0]['id'], config)
@@ -338,6 +393,8 @@ def run(ctx, config='rel-all'):
             I2, r2 = arena.run_fn(ctx, cl[0]['id'], config)
             okv = r2.ret is not None and ((r2.ret[0] == 'app' and r2.ret[1] == 'proj' and r2.ret[2] == P1 and r2.ret[3].endswith('.upvar0')) or (r2.ret[0] == 'load' and r2.ret[1][0] == 'fld' and r2.ret[1][2].endswith('.upvar0')))
         n7 += 1
+        if not okv and not fw and own_value_init(I, r, P2_) is not None:
+            okv = True      # alloc_with spelled out in place: the value written is the parameter itself
         if okv:
             ctx.ok('R7', 'Bump::%s stores the given value' % name, 'generator closure returns its captured value')
         else:
